@@ -402,6 +402,7 @@ func checkC02(c *Check, p *Program) {
 	if layoutRulesC02 != nil {
 		layoutRulesC02(c, p)
 	}
+	checkOverrides(c, p, "C02.layout")
 }
 
 // set by the layout engine when it is linked in
